@@ -72,7 +72,10 @@ def run():
     for i in range(1500 if QUICK else 120000):
         a = gen.random_abstract(rng, N=rng.randint(2, 7), K=rng.randint(1, 3), max_edges=10, nsites=0, nmuts=0,
                                 p_internal_sample=rng.choice([0.15, 0.5]))
-        ts = gen.build_tables(dict(a, sites=[], muts=[])).tree_sequence()
+        tb_ = gen.build_tables(dict(a, sites=[], muts=[]))
+        if rng.random() < 0.4:
+            gen.add_user_flags(tb_, rng)
+        ts = tb_.tree_sequence()
         if ts.num_samples == 0:
             continue
         tree = ts.at_index(rng.randrange(ts.num_trees))
